@@ -24,6 +24,7 @@ EXPLANATION = (
     "only. Decides these structural necessary conditions on every path; does not execute the dispatcher."
     " C13.3 also: the scheduler pass returns only across the 'next job is not due' edge."
     " C13.4 also: schedule() and SchedulerQueue.push queue a job under exactly the time given."
+    " C13.3 also: the job started is the job popped from the queue, and it is popped before it is pushed."
 )
 TRUSTED = ["CPython ast parser", "sa.cfg statement CFG (feasibility-insensitive)", "heapq semantics: h[0] is the minimum"]
 
